@@ -587,3 +587,14 @@ HARMLESS += [
     # mention the inode, either polarity keeps the property
     dict(id="H-C11-inode-switch-other-polarity", prop="C11", file=PA, old="                let match_inode = !ignore_inode\n", new="                let match_inode = ignore_inode\n"),
 ]
+
+CFF = "crates/core/src/repofile/configfile.rs"
+HARMLESS += [
+    # other defaults for unnamed settings: not part of C18
+    dict(id="H-C18-default-datapack-size", prop="C18", file=CFF, old="    pub(super) const DEFAULT_DATA_SIZE: u32 = 32 * MB;", new="    pub(super) const DEFAULT_DATA_SIZE: u32 = 64 * MB;"),
+    dict(id="H-C18-default-min-percentage", prop="C18", file=CFF, old="    pub(super) const DEFAULT_MIN_PERCENTAGE: u32 = 30;", new="    pub(super) const DEFAULT_MIN_PERCENTAGE: u32 = 25;"),
+]
+
+HARMLESS += [
+    dict(id="H-C18-default-chunk-size", prop="C18", file=CFF, old="    pub(super) const DEFAULT_CHUNK_SIZE: usize = 1024 * 1024;", new="    pub(super) const DEFAULT_CHUNK_SIZE: usize = 2 * 1024 * 1024;"),
+]
